@@ -13,6 +13,7 @@ import CharsetProof.Model.Ranges
 import CharsetProof.Model.RangeRules
 import CharsetProof.Model.Coh
 import CharsetProof.Model.CharFlags
+import CharsetProof.Model.WorldFull
 import Std.Data.HashMap
 namespace Charset.Driver
 open Charset
@@ -111,6 +112,10 @@ def addOracle (input : Bytes) (o : Oracle) (tok : String) : Option Oracle :=
       let r : Option (Option (List (Name × F32))) := if res = "E" then some none else (parseCoh res).map some
       r.map (fun r => { o with coh := ((t, thr.key, parseLangs langs), r) :: o.coh })
     | _, _ => none
+  | ["I", cp, fl, base, al, ac, lo] =>
+    match cp.toNat?, fl.toNat?, base.toNat?, (if lo = "" then some [] else (lo.splitOn ".").mapM (·.toNat?)) with
+    | some cp, some fl, some base, some lo => some { o with chars := (cp, fl, base, al == "1", ac == "1", lo) :: o.chars }
+    | _, _, _, _ => none
   | ["G", lists, res] =>
     match (lists.splitOn ";").mapM parseCoh, parseCoh res with
     | some ls, some r => some { o with merge := (ls.map keyOfCoh, r) :: o.merge }
@@ -151,12 +156,31 @@ def showFault : Fault → String
 
 def sorter : Sorter Name Name := sortMatches
 
+/-- `worldFull` over the character facts received so far; a text with a character not yet described is a
+    `need` (the harness then describes its characters instead of answering with the crate's result) -/
+def fullWorldOf (o : Oracle) : World Name Name :=
+  let cm : Std.HashMap Nat (Nat × Nat × Bool × Bool × List Nat) := o.chars.foldl (fun m c => m.insert c.1 c.2) {}
+  let menv : Md.MdEnv := {
+    info := fun c => match cm.get? c with
+      | some i => ⟨c, i.1, rangeIdOf Gen.unicodeRanges c, i.2.1⟩
+      | none => ⟨c, 0, 0, c⟩
+    susp := suspNow }
+  let cenv : Coh.CohEnv := {
+    isAlpha := fun c => ((cm.get? c).map (·.2.2.1)).getD false
+    accent := fun c => ((cm.get? c).map (·.2.2.2.1)).getD false
+    lower := fun c => ((cm.get? c).map (·.2.2.2.2)).getD [c] }
+  let W := worldFull menv cenv o
+  { W with
+    mess := fun t thr => if (10 :: t).all cm.contains then W.mess t thr else needO (.mess t thr.key)
+    coh := fun t thr langs =>
+      if t.all (fun c => cm.contains c && (cenv.lower c).all cm.contains) then W.coh t thr langs
+      else needO (.coh t thr.key langs) }
+
 /-! ### speculation: everything the model could still ask for this input (never trusted, only
     used to batch oracle queries; a wrong guess costs one more round) -/
 
-def speculate (o : Oracle) (b : Bytes) (s : Settings) : List Query :=
+def speculate (W : World Name Name) (b : Bytes) (s : Settings) : List Query :=
   let T := tablesNow
-  let W := worldNow o
   match canonList T.ianaName s.incl, canonList T.ianaName s.excl with
   | .ok incl, .ok excl =>
     let len := b.length
@@ -203,7 +227,7 @@ def speculate (o : Oracle) (b : Bytes) (s : Settings) : List Query :=
 
 def parseBool (s : String) : Bool := s = "1"
 
-def handleDetect (args : List String) : String :=
+def handleDetect (full : Bool) (args : List String) : String :=
   match args with
   | bh :: steps :: chunk :: thr :: lthr :: incl :: excl :: pre :: fb :: tr :: toks =>
     match unhex bh, steps.toNat?, chunk.toNat?, f32OfBits thr, f32OfBits lthr, parseXNames incl, parseXNames excl with
@@ -214,20 +238,22 @@ def handleDetect (args : List String) : String :=
       match toks.foldlM (addOracle b) ({} : Oracle) with
       | none => "internal bad-oracle-token"
       | some o =>
-        match fromBytes (worldNow o) tablesNow sorter b s with
+        let W := if full then fullWorldOf o else worldNow o
+        match fromBytes W tablesNow sorter b s with
         | .ok (.ok ms) => s!"ok {ms.length} " ++ " ".intercalate (ms.map showMatch)
         | .ok (.error (.badInclude n)) => s!"err include x{xhex n}"
         | .ok (.error (.badExclude n)) => s!"err exclude x{xhex n}"
         | .error (.fault f) => s!"fault {showFault f}"
         | .error (.need q) =>
-          let qs := (q :: speculate o b s).eraseDups
+          let qs := (q :: speculate W b s).eraseDups
           "need " ++ " ".intercalate (qs.map (showQuery b))
     | _, _, _, _, _, _, _ => "bad-op"
   | _ => "bad-op"
 
 def handle (line : String) : String :=
   match line.trimAscii.toString.splitOn " " with
-  | "detect" :: args => handleDetect args
+  | "detect" :: args => handleDetect false args
+  | "detectfull" :: args => handleDetect true args
   | ["iana", n] =>
     match parseXNames n with
     | some [n] => (match ianaNow n with | some e => s!"ok {asciiOfName e}" | none => "ok none")
